@@ -405,7 +405,11 @@ def i_DIVS(ins, fmap):
     Rm, Rn = ins.operands
     r1 = fmap(Rm).signed()
     r2 = fmap(Rn).signed()
-    fmap[Rn] = r2 / r1
+    if r1._is_cst and r1.value == 0:
+        # division by zero exception (not modelled): Rn is unknown
+        fmap[Rn] = top(32)
+    else:
+        fmap[Rn] = r2 / r1
 
 
 @__pc
@@ -413,7 +417,11 @@ def i_DIVU(ins, fmap):
     Rm, Rn = ins.operands
     r1 = fmap(Rm).unsigned()
     r2 = fmap(Rn).unsigned()
-    fmap[Rn] = r2 / r1
+    if r1._is_cst and r1.value == 0:
+        # division by zero exception (not modelled): Rn is unknown
+        fmap[Rn] = top(32)
+    else:
+        fmap[Rn] = r2 / r1
 
 
 @__pc
